@@ -32,6 +32,28 @@ func (ip *Interp) jsonEncode(v Value, depth int) (Str, *jsonErr) {
 		if x.T == nil {
 			return MkStr("null"), nil
 		}
+		// encoding/json reports a value that contains itself (map or slice reached again on the
+		// current descent) as an UnsupportedValueError
+		var key interface{}
+		switch c := x.V.(type) {
+		case *Map:
+			if c != nil {
+				key = c
+			}
+		case Slice:
+			if c.O != nil && len(c.A) > 0 {
+				key = c.O
+			}
+		}
+		if key != nil {
+			for _, k := range ip.jsonPath {
+				if k == key {
+					return Str{}, &jsonErr{"json: unsupported value: encountered a cycle"}
+				}
+			}
+			ip.jsonPath = append(ip.jsonPath, key)
+			defer func() { ip.jsonPath = ip.jsonPath[:len(ip.jsonPath)-1] }()
+		}
 		return ip.jsonEncodeT(x.T, x.V, depth)
 	}
 	ip.jsonUnsupported(fmt.Sprintf("encode %T", v))
@@ -335,9 +357,17 @@ func (ip *Interp) jsonNormalise(v Value, depth int) Value {
 
 // jsonDecode parses JSON text. Concrete text is parsed natively; symbolic text must be the output
 // of an earlier jsonEncode on this path (round trip = normalised deep copy).
-func (ip *Interp) jsonDecode(s Str) (Value, bool) {
+// jsonDecode: whole=true is json.Unmarshal (the text must be exactly one value), whole=false is the
+// first Decode of a json.Decoder (reads one value and leaves the rest).
+func (ip *Interp) jsonDecode(s Str, whole bool) (Value, bool) {
 	if s.Concrete() {
 		var x interface{}
+		if whole {
+			if err := json.Unmarshal([]byte(s.S), &x); err != nil {
+				return nil, false
+			}
+			return ip.fromGoJSON(x), true
+		}
 		d := json.NewDecoder(bytes.NewReader([]byte(s.S)))
 		if err := d.Decode(&x); err != nil {
 			return nil, false
@@ -457,7 +487,7 @@ func registerJSON(reg func(string, func(*Interp, []Value) Value)) {
 	}
 	reg("encoding/json.Unmarshal", func(ip *Interp, a []Value) Value {
 		s := bytesToStr(a[0])
-		v, ok := ip.jsonDecode(s)
+		v, ok := ip.jsonDecode(s, true)
 		if !ok {
 			return ip.jsonError("invalid JSON")
 		}
@@ -482,7 +512,7 @@ func registerJSON(reg func(string, func(*Interp, []Value) Value)) {
 		d := a[0].(Opaque).V.(*jsonDecoder)
 		src := d.src
 		// strip a trailing newline added by Encoder / TrimSpace differences
-		v, ok := ip.jsonDecode(src)
+		v, ok := ip.jsonDecode(src, false)
 		if !ok {
 			return ip.jsonError("invalid JSON")
 		}
